@@ -381,10 +381,10 @@ static std::string simstep_body(const std::vector<std::string> &args, const std:
     }
   }
   SimStepOut a, b, c;
-  alarm(20);
+  nv_cpu_alarm(20);
   bool ok = simstep_once(cpu, pc, regs, runs, a, bio, 0x00, steps) && simstep_once(cpu, pc, regs, runs, b, bio, 0xff, steps) &&
             simstep_once(cpu, pc, regs, runs, c, bio, 0x01, steps);
-  alarm(0);
+  nv_cpu_alarm(0);
   if (!ok) { return "no-simulator"; }
   char buf[128];
   if (a.ret == c.ret && a.dump == c.dump && a.mem == c.mem) { c = b; }      // report the 0x01 run if it differs, else the 0xff run
